@@ -133,12 +133,19 @@ func (f *Formatter) trailing(trailing ast.Comments) string {
 		return c
 	}
 	c += strings.Repeat(" ", f.conf.TrailingCommentWidth)
-	c += f.formatComment(trailing, "", 0)
+	// trailing comments are always followed by a line feed
+	c += f.formatComments(trailing, "", 0, false)
 	return c
 }
 
 // Format leading/infix/trailing comments
 func (f *Formatter) formatComment(comments ast.Comments, sep string, level int) string {
+	// When comments are printed inside a line, a line comment ("#" or "//") must end the line,
+	// otherwise it comments out the rest of the statement.
+	return f.formatComments(comments, sep, level, sep != "\n")
+}
+
+func (f *Formatter) formatComments(comments ast.Comments, sep string, level int, inline bool) string {
 	if len(comments) == 0 {
 		return ""
 	}
@@ -165,7 +172,11 @@ func (f *Formatter) formatComment(comments ast.Comments, sep string, level int) 
 		default:
 			buf.WriteString(comments[i].String())
 		}
-		buf.WriteString(sep)
+		if inline && !strings.HasPrefix(comments[i].String(), "/*") {
+			buf.WriteString("\n")
+		} else {
+			buf.WriteString(sep)
+		}
 	}
 
 	return buf.String()
